@@ -758,6 +758,96 @@ impl Session {
                 }
                 f.ok();
             }
+            "giant_str" => {
+                // one very long string (>= 2^32 bytes) in the role of info / psk / psk_id / exporter context / ikm, and the
+                // same string with one byte changed at `flip`.  Only short results are kept.
+                let n = a.u("len") as usize;
+                let flip = a.u("flip") as usize;
+                let which = a.s("which").to_string();
+                let mut big: Vec<u8> = vec![0u8; n];
+                let mut i = 0usize;
+                while i < n {
+                    big[i] = (i as u64).wrapping_mul(0x9E3779B97F4A7C15u64).to_le_bytes()[7];
+                    i += 4093;
+                }
+                let su = self.suite.as_ref().unwrap();
+                let km = self.kem.as_ref().unwrap();
+                if which == "ikm" {
+                    let (sk, pk, _) = km.derive_keypair(&big);
+                    big[flip] ^= 1;
+                    let (sk2, _, _) = km.derive_keypair(&big);
+                    f.ok().kv("sk", out(&sk)).kv("pk", out(&pk)).kv("p_sk", out(&sk2));
+                } else {
+                    let small_psk = a.b("psk").to_vec();
+                    let small_id = a.b("pskid").to_vec();
+                    let margs = |big: &[u8]| -> (ModeArgs, Vec<u8>) {
+                        let mut m = ModeArgs::default();
+                        let mut info = b"giant".to_vec();
+                        match which.as_str() {
+                            "info" => info = big.to_vec(),
+                            "psk" => {
+                                m.mode = 1;
+                                m.psk = big.to_vec();
+                                m.pskid = small_id.clone();
+                            }
+                            "pskid" => {
+                                m.mode = 1;
+                                m.psk = small_psk.clone();
+                                m.pskid = big.to_vec();
+                            }
+                            _ => {}
+                        }
+                        (m, info)
+                    };
+                    let exp = |r: Result<(), hpke::HpkeError>, o: &[u8]| match r {
+                        Ok(()) => out(o),
+                        Err(e) => format!("err:{}", err_name(&e)),
+                    };
+                    let mut rng = ScriptRng::new(a.b("rng").to_vec());
+                    let (m, info) = margs(&big);
+                    match su.setup_s(&m, a.b("pkr"), &info, &mut rng) {
+                        Err(e) => {
+                            f.fail(&e);
+                        }
+                        Ok((enc, cs)) => {
+                            f.ok().kv("enc", out(&enc));
+                            let short_ctx = b"giant-exporter-context".to_vec();
+                            let ectx: &[u8] = if which == "exctx" { &big } else { &short_ctx };
+                            let mut o = [0x5Au8; 32];
+                            let r = cs.export(ectx, &mut o);
+                            f.kv("s_exp", exp(r, &o));
+                            if let Some((_, es)) = cs.secrets() {
+                                f.kv("es", out(&es));
+                            }
+                            match su.setup_r(&m, a.b("skr"), &enc, &info) {
+                                Err(e) => {
+                                    f.kv("r_exp", format!("setup_err:{}", err_name(&e.0)));
+                                }
+                                Ok(cr) => {
+                                    let mut o = [0x5Au8; 32];
+                                    let r = cr.export(ectx, &mut o);
+                                    f.kv("r_exp", exp(r, &o));
+                                }
+                            }
+                            drop(m);
+                            drop(info);
+                            big[flip] ^= 1;
+                            let (m2, info2) = margs(&big);
+                            match su.setup_r(&m2, a.b("skr"), &enc, &info2) {
+                                Err(e) => {
+                                    f.kv("p_exp", format!("setup_err:{}", err_name(&e.0)));
+                                }
+                                Ok(cr) => {
+                                    let ectx: &[u8] = if which == "exctx" { &big } else { &short_ctx };
+                                    let mut o = [0x5Au8; 32];
+                                    let r = cr.export(ectx, &mut o);
+                                    f.kv("p_exp", exp(r, &o));
+                                }
+                            }
+                        }
+                    }
+                }
+            }
             "tls_teardown" => {
                 // A worker thread whose OWN thread-local was initialised first (so it is destroyed last) calls the
                 // library once in its body and once more from that thread-local's destructor, i.e. while the thread
